@@ -49,7 +49,10 @@ if not skip_confirm:
     res["ran"] += [demo_cmd, "git apply patch.diff; go build ./...; go test -vet=off -count=1 ./..."]
 
 # checks against the mutated tree
-sh(f"git apply {patch}", cwd=REPO)
+rc_apply, out_apply = sh(f"git apply {patch}", cwd=REPO)
+if rc_apply != 0:
+    print(json.dumps({"id": f"{ID}-{M}", "detected_by": ["PATCH-DOES-NOT-APPLY"], "error": out_apply[-400:]}))
+    sys.exit(0)
 res["checks"] = {}
 for p in PROPS:
     t0 = time.time()
